@@ -206,7 +206,32 @@ func drawHistory(rng *rand.Rand, nops int) error {
 	drain(s)
 	runesl := []rune{'a', 'b', 'Z', '%', ' ', 0xe9, 0x3b1, 0x2500, 0x4e16, 0x754c, 0xac00, 0xff21, 0, 7, 0x7f, 0x200b, 0x301}
 	for i := 0; i < nops; i++ {
-		switch k := rng.Intn(20); {
+		switch k := rng.Intn(21); {
+		case k == 20:
+			// a fill, a wide rune over it, the same fill again - each shown: the covered column comes back
+			st := randStyle(rng, true)
+			r := []rune{' ', 'x'}[rng.Intn(2)]
+			show := func() {
+				emit(ev{"ev": "Show"})
+				s.Show()
+				emit(ev{"ev": "ShowEnd"})
+			}
+			fill := func() {
+				s.Fill(r, st.style())
+				emit(ev{"ev": "Fill", "cp": int(r), "wc": wc(r), "st": st.json()})
+			}
+			fill()
+			show()
+			if w >= 2 {
+				x, y := rng.Intn(w-1), rng.Intn(h)
+				wr := []rune{0x4e16, 0xac00, 0xff21}[rng.Intn(3)]
+				st2 := randStyle(rng, true)
+				s.SetContent(x, y, wr, nil, st2.style())
+				emit(ev{"ev": "SetContent", "x": x, "y": y, "cp": int(wr), "wc": wc(wr), "comb": []int{}, "st": st2.json()})
+				show()
+			}
+			fill()
+			show()
 		case k < 11:
 			x, y := rng.Intn(w+2)-1, rng.Intn(h+2)-1
 			r := runesl[rng.Intn(len(runesl))]
